@@ -276,6 +276,16 @@ def _pmap(check: Check):
   ap = appends[0]
   loop = wmean._loop_of(rff, ap)
   idx = loop.target.id if isinstance(loop, ast.For) and isinstance(loop.target, ast.Name) else None
+  mask_name = None
+  if isinstance(loop, ast.For) and isinstance(loop.target, ast.Tuple) and len(loop.target.elts) == 2 and all(
+      isinstance(t, ast.Name) for t in loop.target.elts) and isinstance(loop.iter, ast.Call) and rff.ext(loop.iter.func) == 'builtins.enumerate' and \
+      loop.iter.args and isinstance(loop.iter.args[0], ast.Attribute) and loop.iter.args[0].attr == 'client_mask':
+    # for i, is_real in enumerate(block.client_mask)
+    idx, mask_name = loop.target.elts[0].id, loop.target.elts[1].id
+  if idx is None:
+    for r_ in ('R-MASK.skip', 'R-MASK.id', 'R-MASK.truncate'):
+      check.ob(r_, run, 'split loop over the slots of a block', None, 'the loop that splits a block into per-client outputs is not in a recognised form')
+    return
   # guard: a `continue` (or enclosing if) on block.client_mask[idx]
   guarded = False
   for x in ast.walk(loop):
@@ -283,8 +293,8 @@ def _pmap(check: Check):
       t = x.test
       neg = isinstance(t, ast.UnaryOp) and isinstance(t.op, ast.Not)
       core = t.operand if neg else t
-      is_mask = isinstance(core, ast.Subscript) and isinstance(core.value, ast.Attribute) and core.value.attr == 'client_mask' and isinstance(
-          core.slice, ast.Name) and core.slice.id == idx
+      is_mask = (isinstance(core, ast.Subscript) and isinstance(core.value, ast.Attribute) and core.value.attr == 'client_mask' and isinstance(
+          core.slice, ast.Name) and core.slice.id == idx) or (mask_name is not None and isinstance(core, ast.Name) and core.id == mask_name)
       if is_mask:
         if neg and any(isinstance(s, ast.Continue) for s in x.body):
           guarded = True
@@ -341,6 +351,21 @@ def _pmap(check: Check):
       pop_last = len(pops) == 1 and not pops[0].args
       ok_y = cnt_ok and len(pops) == 1 and every and shape_ok and (rev == pop_last)
       why = f'count=len(outputs):{cnt_ok}, pops={len(pops)}, every-iteration={every}, 3-tuple={shape_ok}, reverse+pop() order preserved={rev == pop_last}'
+    elif isinstance(yl, ast.While) and isinstance(yl.test, ast.Name) and yl.test.id == OUT:
+      # while outputs: yield outputs.pop()
+      pops = [c for c in ast.walk(yl) if isinstance(c, ast.Call) and isinstance(c.func, ast.Attribute) and c.func.attr == 'pop' and isinstance(
+          c.func.value, ast.Name) and c.func.value.id == OUT]
+      every = wmean._on_every_iteration(rff, yl, n)
+      v = y.value
+      shape_ok = isinstance(v, ast.Tuple) and len(v.elts) == 3
+      rev = any(isinstance(c.func, ast.Attribute) and c.func.attr == 'reverse' and isinstance(c.func.value, ast.Name) and
+                c.func.value.id == OUT for _, c in rff.calls())
+      pop_last = len(pops) == 1 and not pops[0].args
+      ok_y = len(pops) == 1 and every and shape_ok and (rev == pop_last)
+      why = f'while {OUT}: pops={len(pops)}, every-iteration={every}, 3-tuple={shape_ok}, reverse+pop() order preserved={rev == pop_last}'
+    else:
+      ok_y = None
+      why = 'the loop that yields the collected outputs is not in a recognised form'
   check.ob('R-YIELD1', run, 'yield per popped output', ok_y, why)
   # _blockify
   _blockify(check)
